@@ -109,8 +109,22 @@ def func_imports(m):
 
 
 # ------------------------------------------------------------------ expected (TLC)
+def _survey_opcodes(items):
+    """Coverage survey (tools/coverage.sh): which instructions occur in the replayed scenarios."""
+    d = os.environ.get("VERIF_GCOV")
+    if not d:
+        return
+    ops = set()
+    for it in items:
+        for f in it["module"].get("funcs", []):
+            ops.update(i[0] for i in f["body"])
+    with open(os.path.join(d, "opcodes.txt"), "a") as fh:
+        fh.write("\n".join(sorted(ops)) + "\n")
+
+
 def expected(items, workdir, shards=None, timeout=1500):
     """Run spec/Replay.tla over the items.  Returns (obs dict keyed (id,k), stats)."""
+    _survey_opcodes(items)
     shards = max(1, min(shards or NCPU, len(items)))
     # balance by script length
     order = sorted(range(len(items)), key=lambda j: -sum(1 for _ in items[j]["script"]))
